@@ -13,6 +13,9 @@ ID = "C16"
 TECHNIQUE = ("explicit-state breadth-first search over mouse/key event histories driven through the real SelFromPlot dialog "
              "(head-less Tk stand-ins, real Matplotlib callback registry), lock-step conformance with a list-of-pairs "
              "model on every transition and on the hand-over to modal-parameter extraction at every state")
+LEVEL_TEXT = ("every event history up to the stated depth over the stated click grid is driven through the real dialog and compared with the "
+              "list-of-pairs model after every event; in every state reached the dialog is closed and the pairs handed to extraction and the "
+              "extracted modes are compared with the model")
 RULE = ("a history is a sequence of events (press/release shift, click(button, x, y)) on a fresh dialog; non-trivial = at "
         "least two picks at different model orders (or lines) in non-ascending frequency order, or a deselection after "
         "two picks; distinct by (variant, event sequence)")
